@@ -605,3 +605,8 @@ var errSkip = errors.New("skip")
 
 // failf is a tiny helper for check functions.
 func failf(format string, args ...any) error { return fmt.Errorf(format, args...) }
+
+// lazy defers building a diagnostic string until it is formatted.
+type lazy func() string
+
+func (l lazy) String() string { return l() }
